@@ -130,6 +130,24 @@ CHECKS = {
             "rendered in Hill order and parsed must equal its own Hill form.",
             "D and T sort under their own symbols; ties between charge states follow the library's own (now canonical) order.",
             "DESIGN.md section 4 C19"),
+    "C08": ("exhaustive identity sweep over all 17765 atoms x every lookup route in 5 table configurations, all invalid "
+            "neighbour keys, plus Hypothesis-generated operation sequences (lookups, pickle, copy, change_table, lazy loads, "
+            "private inits, bad keys) run in forked fresh interpreters against a first-seen registry model",
+            "Every element, isotope, ion and isotope ion of the public and private tables is reached through every route "
+            "(number, symbol, name, 'A-Sym', attribute, module attribute, el[A], .ion[c], pickle protocols 0-5, copy, "
+            "deepcopy, change_table) and must be the identical object with matching attributes; ~59k invalid keys per table "
+            "must raise and leave the table unchanged; iteration order is checked.",
+            "Z-to-symbol mapping from an embedded IUPAC list; spellings int() accepts and whitespace variants are not judged.",
+            "DESIGN.md section 4 C08"),
+    "C20": ("exhaustive sweep of the five ancillary tables against independent regex readers of the embedded text/files "
+            "(position-free keys) on public and private tables + Hypothesis-generated Q for the form-factor formulas",
+            "Covalent radius and uncertainty, crystal structure, K-alpha/K-beta1, magnetic form-factor coefficients per "
+            "charge state (j0/j2/j4/j6/J) and the 211 Cromer-Mann sets are compared with independently read entries for "
+            "every element and ion; elements without an entry must serve None/no attribute; j0(0)=1 within 0.5%, jn(0)=0 "
+            "and the analytic forms are evaluated for generated scalar/list/array Q.",
+            "The embedded tables are the specification; three comment slips in crystal_structure.py (#X, #Th, #Lw) are "
+            "corrected in the reader.",
+            "DESIGN.md section 4 C20"),
 }
 
 PENDING = {}
